@@ -17,7 +17,7 @@ CLAIMS = {
          'loops, no iterate-while-mutate over fd_events, one-shot-before-callback, epoll/select sibling agreement, interest-set table (counter stepped under the matching events_ bit, epoll mask / select sets requested iff counter > 0, kernel-bit to tbox-bit translation incl. HUP->read, epoll_ctl ADD/MOD/DEL by old/new mask)', '§4 C03, §10.7',
          're-entrancy/invalidation rules + exception-escape analysis over clang AST/CFG'),
  'C04': ('A6 callee allow-list of the async signal handler, chaining/fan-out shape, save/restore pairing of the disposition, signal table only under '
-         'lock + blocked signals, one-shot ordering, subscriber snapshot re-validation, enable() rollback, idempotent subscription (unique-key subscriber set or enable() guard)', '§4 C04',
+         'lock + blocked signals, one-shot ordering, subscriber snapshot re-validation, enable() rollback, idempotent subscription (unique-key subscriber set or enable() guard), installed action has constant flags/mask, deferred destruction of the pipe event names the taken-out object', '§4 C04',
          'callee allow-list + pairing/path rules over clang AST/CFG'),
  'C05': ('A1 lockset/thread-role race freedom incl. cond-var flag discipline (static form of "cleanup terminates"), A3 take→mark-running atomicity, '
          'completion protocol (body on worker role, main_cb only via runInLoop after the body), cancel/cleanup shapes, join protocol, priority/FIFO shape, '
@@ -29,7 +29,7 @@ CLAIMS = {
          'appendLockless caller, one critical section for a whole datum, FIFO hand-over and reset-after-callback, back-pressure guards, cleanup/quit-path flush order, acyclic lock order and no wait-for cycle (no role blocks on a mutex another role holds while waiting for it), chunk-copy arithmetic of the pipe buffer by linear forms per reaching definition (inside block and datum, min(request, free), size_ advanced by what was copied), stop flag tested under the lock before every backend wait, relative counters of initialize() reset by cleanup()', '§4 C10, §10.7',
          'lockset + lock-order + CFG path rules over clang AST/CFG'),
  'C11': ('hook-balance on every path of initialize/start (own hook matched by state advance or rollback, children rolled back in reverse), gated single '
-         'stop/cleanup hooks, pre-order/reverse-order iteration (reverse iterators or down-counting index), required-only abort read off branch edges, every child swept unconditionally by stop/cleanup, Main()/Start()/Stop() sequencing', '§4 C11',
+         'stop/cleanup hooks, pre-order/reverse-order iteration (reverse iterators or down-counting index), required-only abort read off branch edges, every child swept unconditionally by stop/cleanup, stop()/cleanup() refuse only on the module\'s own state, Main()/Start()/Stop() sequencing', '§4 C11',
          'typestate-style path rules over clang AST/CFG'),
 }
 CLAIMS.update({
@@ -44,13 +44,13 @@ CLAIMS.update({
          'line and cursor-update shapes, no dispatch after a close-marked request, single commit per request by construction, in-order flush shape, boundary agreement of every comparison with close_index, no read-side shutdown while responses are owed (teardown chain re-derived each run), no unbounded stack allocation on the receive path, per-request parser state re-initialised at each request, any transport shutdown only in the send-complete callback, receive threshold of the resumable parser folds to 0 or 1, reserve/resize with an input-derived count counted as a thrower', '§4 C12',
          'exception-escape analysis + reaching definitions + CFG path rules over clang AST/CFG'),
  'C13': ('A8 no exception escapes the input path (telnet, raw TCP, terminal), no access to an empty history, deferred tasks capture tokens not pooled pointers, '
-         'cursor-update guards, prompt/history-cap shape, telnet framing length tests, bounded history recursion, no unbounded stack allocation (VLA/alloca) on the input path; range/presence proofs require the container to be unchanged between proof and use; key decoding transition table read off the scanner vs the xterm/VT220 reference encodings, key-result to handler dispatch table, no implicit narrowing of strtol-family results (A9g), receive thresholds of the three front ends fold to 0 or 1, telnet text marked read is delivered on every path to every exit, key-scanner typestate across strings', '§4 C13, §10.7',
+         'cursor-update guards, prompt/history-cap shape, telnet framing length tests, bounded history recursion, no unbounded stack allocation (VLA/alloca) on the input path; range/presence proofs require the container to be unchanged between proof and use; key decoding transition table read off the scanner vs the xterm/VT220 reference encodings, key-result to handler dispatch table, no implicit narrowing of strtol-family results (A9g), receive thresholds of the three front ends fold to 0 or 1, telnet text marked read is delivered on every path to every exit, key-scanner typestate across strings, pointers into the telnet buffer formed only under a matching length test', '§4 C13, §10.7',
          'exception-escape analysis + ownership/deferred-capture + CFG path rules over clang AST/CFG'),
  'C14': ('A8 framing/dispatch never throw (parse only inside CatchThrow, typed json access under type tests), no narrow length sum, fetchNoCopy result proven '
          'non-null or tested, resumable-framing return discipline, complete-then-erase with sibling agreement, no container handle live across the user callback, '
-         'bounded recursion, FindEndPos scan guards, TimeoutMonitor count/timer protocol (count changes only with the ring, timer disabled only on a fresh zero test, nothing decided from a pre-callback value), no unbounded stack allocation, no narrow integer get<T>() without a range test (A9g for JSON), owner re-installs the monitor callback on re-initialisation, framing state reset on consuming/failing exits, encoder/decoder agreement on every refusal (reasons classified, length bounds folded from both guards), no scanner error value answered with "need more data"', '§4 C14, §10.3 D33', 'exception-escape + input-hardening + re-entrancy rules over clang AST/CFG'),
+         'bounded recursion, FindEndPos scan guards, TimeoutMonitor count/timer protocol (count changes only with the ring, timer disabled only on a fresh zero test, nothing decided from a pre-callback value), no unbounded stack allocation, no narrow integer get<T>() without a range test (A9g for JSON), owner re-installs the monitor callback on re-initialisation, framing state reset on consuming/failing exits, encoder/decoder agreement on every refusal (reasons classified, length bounds folded from both guards), no scanner error value answered with "need more data", exact completeness boundaries of the header framing (linear proofs) and of the raw framing against the scanner\'s contract', '§4 C14, §10.3 D33', 'exception-escape + input-hardening + re-entrancy rules over clang AST/CFG'),
  'C15': ('every datagram-filled local initialised or status-checked, reported values control dependent on successful reads, bounded compression recursion, '
-         'deserializer bounds-check/width/advance agreement over all readers, complete-then-erase of lookups, no exception on the datagram path, TimeoutMonitor count/timer protocol (both sides), no unbounded stack allocation, receive length bounded by the receive buffer, reported Result fresh per datagram, no deserializer status dropped on the datagram path', '§4 C15',
+         'deserializer bounds-check/width/advance agreement over all readers, complete-then-erase of lookups, no exception on the datagram path, TimeoutMonitor count/timer protocol (both sides), no unbounded stack allocation, receive length bounded by the receive buffer, reported Result fresh per datagram, no deserializer status dropped on the datagram path, RFC 1035 wire-format conformance of the parser\'s own expressions by finite-domain folding (reply bit, rcode, terminator, compression tag/target, exact trip counts), recursion bound at most 1024 levels', '§4 C15',
          'input-hardening (def/use + guard) rules + sibling agreement over clang AST/CFG'),
  'C16': ('re-entrancy counter bracket around every user function (abstract counter dataflow), state writes only behind the re-entrancy test, transition step '
          'order, delegation/handler/route precedence with first-match scan shape, enter/exit and sub-machine start/stop pairing, definition calls rejected while running, transition target read from the live route after the guard/action callbacks (late binding)', '§4 C16',
